@@ -18,6 +18,8 @@ pub enum Op {
     Del(u8),
     /// complete_compaction(sources, target)
     Compact(Vec<u8>, u8),
+    /// complete_compaction_with_target(sources, new target path p3 covering interval i): what the compactor calls
+    CompactWith(Vec<u8>, usize),
 }
 
 fn pname(i: u8) -> String {
@@ -64,6 +66,11 @@ fn alphabet(tier: &str) -> Vec<Op> {
     a.push(Op::Compact(vec![0, 1], 2));
     a.push(Op::Compact(vec![1, 2], 0));
     a.push(Op::Compact(vec![0], 9)); // unknown target
+    // merged target covering one, two and three hour buckets, and one across the epoch
+    for i in [3usize, 5, 6, 7] {
+        a.push(Op::CompactWith(vec![0], i));
+        a.push(Op::CompactWith(vec![0, 1], i));
+    }
     a
 }
 
@@ -86,6 +93,15 @@ fn apply_model(m: &mut Model, op: &Op, ivs: &[(i64, i64)]) {
                 }
             }
         }
+        Op::CompactWith(src, i) => {
+            // refused (no effect) when a source is not live; otherwise the sources are replaced by the new chunk
+            if src.iter().all(|s| m.contains_key(&pname(*s))) {
+                for s in src {
+                    m.remove(&pname(*s));
+                }
+                m.insert(pname(3), ivs[*i]);
+            }
+        }
     }
 }
 
@@ -105,6 +121,11 @@ async fn apply_real(c: &dyn MetadataClient, op: &Op, ivs: &[(i64, i64)]) -> Resu
             let s: Vec<String> = src.iter().map(|x| pname(*x)).collect();
             c.complete_compaction(&s, &pname(*t)).await.map_err(|e| e.to_string())
         }
+        Op::CompactWith(src, i) => {
+            let s: Vec<String> = src.iter().map(|x| pname(*x)).collect();
+            let (a, b) = ivs[*i];
+            c.complete_compaction_with_target(&s, &chunk_meta(&pname(3), a, b)).await.map_err(|e| e.to_string())
+        }
     }
 }
 
@@ -116,7 +137,7 @@ async fn check_backend(name: &str, c: &dyn MetadataClient, m: &Model, points: &[
     if listed != want {
         return Err(Fail { sig: format!("C07:{name}:list_chunks-differs"), msg: format!("list_chunks = {listed:?}, live chunks = {want:?}") });
     }
-    for p in ["p0", "p1", "p2", "ghost"] {
+    for p in ["p0", "p1", "p2", "p3", "ghost"] {
         let g = c.get_chunk(p).await.map_err(|e| Fail { sig: format!("C07:{name}:get_chunk-error"), msg: e.to_string() })?;
         let got = g.map(|x| (x.min_timestamp, x.max_timestamp));
         if got != m.get(p).copied() {
